@@ -822,7 +822,12 @@ struct TopDoc {
 /// doc comment of an `options`/`command` type: blocks separated by double blank lines become
 /// description, header and footer
 fn gen_top_doc(u: &mut Un, tag: &str) -> TopDoc {
-    match u.below(4) {
+    let k = u.below(4);
+    gen_top_doc_k(u, tag, k)
+}
+
+fn gen_top_doc_k(u: &mut Un, tag: &str, k: usize) -> TopDoc {
+    match k {
         0 => TopDoc {
             lines: Vec::new(),
             descr: None,
@@ -908,7 +913,9 @@ pub fn gen_struct(u: &mut Un, ix: usize) -> TypeIR {
     let mut pools = Pools::new();
     let name = format!("Opts{}", ix);
     let fields = gen_fields(u, &mut pools, 5, true);
-    let top = gen_top_doc(u, &name);
+    // doc layout and explicit override are stratified over the type index so that every
+    // combination occurs in every family
+    let top = gen_top_doc_k(u, &name, ix % 4);
     let mode = u.below(7);
     let mut attrs: Vec<String> = Vec::new();
     let mut derived_fn = snake(&name);
@@ -953,8 +960,8 @@ pub fn gen_struct(u: &mut Un, ix: usize) -> TypeIR {
             attrs.push(format!("group_help({})", lit(&g)));
             explicit_gh = Some(g);
         }
-    } else if u.chance(128) {
-        match u.below(4) {
+    } else if (ix / 4) % 5 != 4 {
+        match (ix / 4) % 5 {
             0 => {
                 let h = format!("Explicit header of {}", name);
                 attrs.push(format!("header({})", lit(&h)));
